@@ -85,4 +85,32 @@ def sinkencOp (w : List String) : String :=
     | _, _ => "bad-op"
   | _ => "bad-op"
 
+/-- the calls one after the other on ONE sink, carrying on after a failed call (harness/cfg `encseq`) -/
+def encseqLoop : List (List Bytes) → Sink → List String → Option (Sink × List String)
+  | [], s, acc => some (s, acc.reverse)
+  | ps :: rest, s, acc =>
+    match s.putAll ps with
+    | .ok s' => encseqLoop rest s' ("ok" :: acc)
+    | .err s' => encseqLoop rest s' ("write" :: acc)
+    | .panic => none
+
+def encseqOp (w : List String) : String :=
+  match w with
+  | kind :: c :: calls =>
+    match c.toNat?, calls.mapM putsOfCall with
+    | some cap, some pss =>
+      let k := if kind == "carr" then "carray" else kind
+      if kind == "carr" && cap != 12 then "bad-op" else
+      if !(kind == "carr" || kind == "slice" || kind == "cslice") || cap > 4096 then "bad-op" else
+      match mkSink k cap with
+      | none => "bad-op"
+      | some s =>
+        match encseqLoop pss s [] with
+        | none => "panic"
+        | some (s', rs) =>
+          let buf := (s'.memory.drop 16).take cap
+          s!"{if rs.isEmpty then "-" else ",".intercalate rs} pos={s'.position} buf={hexOrDash buf}"
+    | _, _ => "bad-op"
+  | _ => "bad-op"
+
 end Minicbor.Drv
